@@ -583,8 +583,12 @@ pub fn lex_ops_case(cx: &mut Ctx, strings: &[String], ops: &[(u8, String)], via:
             let cur = it.current().map(|s| s.to_string());
             // documented: true = moved to the neighbour in order; the strings are sorted, so a successful step never goes the wrong way
             match code {
-                0 => if ret { if !(cur.is_some() && before.is_some() && cur >= before) { bad.push(format!("next() from {:?} to {:?}", before, cur)); } },
-                1 => if ret { if !(cur.is_some() && before.is_some() && cur <= before) { bad.push(format!("prev() from {:?} to {:?}", before, cur)); } },
+                0 => if ret { if !(cur.is_some() && before.is_some() && cur >= before) { bad.push(format!("next() from {:?} to {:?}", before, cur)); } }
+                     // refused at the last string: the iterator stays or is at the end, it never lands on another string
+                     else if cur.is_some() && cur != before { bad.push(format!("a refused next() moved the iterator from {:?} to {:?}", before, cur)); },
+                1 => if ret { if !(cur.is_some() && before.is_some() && cur <= before) { bad.push(format!("prev() from {:?} to {:?}", before, cur)); } }
+                     // refused at the first string: the iterator stays where it is
+                     else if before.is_some() && cur != before { bad.push(format!("a refused prev() moved the iterator from {:?} to {:?}", before, cur)); },
                 2 => if cur.as_ref() != strings.first() || ret != !strings.is_empty() { bad.push("seek_start".into()); },
                 3 => if cur.as_ref() != strings.last() || ret != !strings.is_empty() { bad.push("seek_end".into()); },
                 4 => {
